@@ -272,6 +272,17 @@ class BinanceAdapter:
                 adapter.key_counter[0] += 1
                 if n in fail_keys:
                     hub.log.append(("listenkey_failed", hub.now()))
+                    how = sc.get("listen_key_error", "runtime")
+                    if isinstance(how, int):
+                        # the exchange answered with an HTTP error (401 / 403 are also what a throttling front end
+                        # answers for a while): the client library's own exception
+                        from basana.external.binance import client as bclient
+                        resp = types.SimpleNamespace(status=how, reason="error %d" % how)
+                        raise bclient.Error("listen key creation failed", -2015, resp, {"code": -2015, "msg": "x"})
+                    if how == "timeout":
+                        raise asyncio.TimeoutError()
+                    if how == "conn":
+                        raise ConnectionResetError("connection reset by peer")
                     raise RuntimeError("listen key creation failed")
                 hub.log.append(("listenkey", hub.now(), "lk%d" % n))
                 return {"listenKey": "lk%d" % n}
@@ -425,11 +436,17 @@ def monitor(sc, log, adapter):
     for idx, (start, stop) in conns.items():
         for t_reg, ch in regs:
             t0 = max(t_reg, start)
-            if stop >= t0 + settle and not any(t0 - 1e-9 <= x <= t0 + settle for x in trouble):
-                if not any(c == ch and t <= t0 + settle for t, c in frames.get(idx, [])):
+            # trouble delays the obligation, it does not cancel it: a connection that outlives the trouble by the
+            # settling time must carry the subscription by then (a failure normally ends the connection instead)
+            deadline = t0 + settle
+            for x in sorted(trouble):
+                if t0 - 1e-9 <= x <= deadline:
+                    deadline = x + settle
+            if stop >= deadline:
+                if not any(c == ch and t <= deadline for t, c in frames.get(idx, [])):
                     fp = "ws:registered-channel-not-subscribed" if t_reg <= start else "ws:late-registration-not-subscribed"
                     out.append((fp, f"channel {ch} (registered at {t_reg}) was not subscribed on connection {idx} "
-                                    f"(up from {start} to {stop}) within {settle}s"))
+                                    f"(up from {start} to {stop}) by {deadline}"))
                     return out
     # M2: flagged re-subscription on the live connection
     for r in log:
@@ -575,8 +592,23 @@ def gen_scenario(rnd):
         scripts.append(script)
     return {"client": client, "initial": initial, "registrations": regs, "scripts": scripts, "end": 160.0,
             "sub_delay": rnd.choice([0, 0, 0.5, 2.0]), "backoff": rnd.choice([1, 1, 3]),
-            "keepalive": rnd.choice([20, 35]), "listen_key_failures": [1] if rnd.random() < 0.2 else [],
+            "keepalive": rnd.choice([20, 35]),
+            "listen_key_failures": rnd.choice([[0], [1], [0, 1], [1, 2]]) if rnd.random() < 0.3 else [],
+            "listen_key_error": rnd.choice(["runtime", 400, 401, 403, 418, 429, 500, "timeout", "conn"]),
             "connect_failures": [1] if rnd.random() < 0.15 else []}
+
+
+def gen_many_channels(rnd):
+    """A Binance client with a few hundred registered streams (every symbol of a market) next to the user-data stream."""
+    n = rnd.choice([201, 230, 260, 401])
+    names = ["s%dusdt@%s" % (k, "trade" if k % 2 else "kline_1m") for k in range(n)]
+    at = rnd.randrange(0, n // 2)
+    initial = names[:at] + ["user"] + names[at:]
+    scripts = [[("delay", 5.0), ("chanmsg", "user"), ("delay", 70.0), ("chanmsg", names[3]), ("delay", 20.0), ("drop",)],
+               [("delay", 3.0), ("chanmsg", "user")]]
+    return {"client": "binance", "initial": initial, "registrations": [], "scripts": scripts, "end": 220.0,
+            "sub_delay": 0, "backoff": 1, "keepalive": rnd.choice([20, 35]), "listen_key_failures": [],
+            "connect_failures": []}
 
 
 def concretise(sc, adapter_kind):
